@@ -185,6 +185,18 @@ pub fn pairs_related(dom: &[Vec<u8>], win: bool, nrand: usize, seed: u64) -> Vec
             b[*i] ^= 0x20;
             out.push((a.clone(), b));
         }
+        // one SEPARATOR replaced by an ordinary byte that sorts below / above it (`ab/cd` vs `ab-cd`: the order
+        // of the components is not the order of the bytes)
+        let seps: Vec<usize> = a.iter().enumerate().filter(|(_, b)| crate::oracle::is_sep(win, **b)).map(|(i, _)| i).collect();
+        let sstep = (seps.len() / 3).max(1);
+        for i in seps.iter().step_by(sstep) {
+            for sub in [b'-', b' ', b'0', b'z', b'_'] {
+                let mut b = a.clone();
+                b[*i] = sub;
+                out.push((a.clone(), b.clone()));
+                out.push((b, a.clone()));
+            }
+        }
         for _ in 0..nrand {
             out.push((a.clone(), rng.pick(dom).clone()));
         }
